@@ -5,7 +5,8 @@
    any queueing time; a request is well formed when the generated RequestPacket decoder accepts the packet
    (parse_request pkg = Some r). *)
 From Coq Require Import List NArith ZArith Permutation.
-From TarsV Require Import Gen.Consts Base.Hex Codec.Prim Codec.GenCodec Frame.Framing Frame.FramingProofs Rpc.Invoke Rpc.InvokeProofs.
+From TarsV Require Import Gen.Consts Base.Hex Codec.Prim Codec.GenCodec Frame.Framing Frame.FramingProofs Rpc.Invoke Rpc.InvokeProofs
+  Rpc.InvokeTime Rpc.InvokeTimeProofs Gen.C10Probe Rpc.InvokeProbe.
 Import ListNotations.
 Open Scope N_scope.
 
@@ -190,6 +191,92 @@ Theorem C10_tcp_segmentation : forall dispatch max cfg pkgs chunks queued,
   tcp_session dispatch max cfg chunks queued = session dispatch cfg (combine pkgs queued).
 Proof. exact InvokeProofs.tcp_segmentation. Qed.
 
+(* ================= time as data (Rpc/InvokeTime.v): a request's life as nanosecond timestamps =================
+   t_arr (packet read, recvPkgTs stamped) <= t_hdl (handler starts, invokeCtx created) <= t_sel (Invoke reads the clock
+   and decides); d_run, d_wake, d_write: how long Invoke runs, how late the handler wakes and writes. All of them
+   universally quantified. *)
+Theorem C10_timed_count : forall dispatch cfg r st,
+  length (fst (timed_step dispatch cfg r st)) = if oneway r then 0%nat else 1%nat.
+Proof. exact InvokeTimeProofs.timed_count. Qed.
+Theorem C10_timed_identity : forall dispatch cfg r st o p, In (o, p) (fst (timed_step dispatch cfg r st)) ->
+  p_id p = q_id r /\ p_ver p = q_ver r /\ p_ptype p = q_ptype r.
+Proof. exact InvokeTimeProofs.timed_identity. Qed.
+(* a queue-timeout answer only if the request really waited: it carried a timeout and waited longer than that timeout
+   less one millisecond (clocks are read in whole milliseconds) - or the whole handle timeout passed between the
+   handler's start and Invoke's decision *)
+Theorem C10_queue_timeout_only_if_waited : forall dispatch cfg r st p, stamps_ok st ->
+  In (FromQueueTimeout, p) (fst (timed_step dispatch cfg r st)) ->
+  ((0 < q_timeout r)%Z /\ (Z.of_N (waited st) > (q_timeout r - 1) * 1000000)%Z) \/
+  (0 < c_ht cfg /\ c_ht cfg * ns_per_ms <= t_sel st - t_hdl st).
+Proof. exact InvokeTimeProofs.timed_queue_timeout_only_if_waited. Qed.
+(* the same for an observer with a clock (what the harness checks on every answered request): sent at [send], reply read
+   at [seen] - a queue-timeout answer must fit between the two *)
+Theorem C10_queue_timeout_window : forall dispatch cfg r st p send seen, stamps_ok st -> send <= t_arr st -> t_sel st <= seen ->
+  In (FromQueueTimeout, p) (fst (timed_step dispatch cfg r st)) ->
+  qt_window_ok (q_timeout r) (c_ht cfg) send seen = true.
+Proof. exact InvokeTimeProofs.qt_window_sound. Qed.
+(* ... and a request that carried a timeout and waited that long is never executed *)
+Theorem C10_waited_then_not_executed : forall dispatch cfg r st, stamps_ok st -> (0 < q_timeout r)%Z ->
+  (Z.of_N (waited st) >= q_timeout r * 1000000)%Z ->
+  snd (timed_step dispatch cfg r st) = 0%nat /\
+  forall o p, In (o, p) (fst (timed_step dispatch cfg r st)) -> o = FromQueueTimeout \/ o = FromHandleTimeout.
+Proof. exact InvokeTimeProofs.timed_waited_then_not_executed. Qed.
+(* the reading without the millisecond of slack is false of the model and of the code (both clocks are truncated) *)
+Definition C10_queue_timeout_exact_statement : Prop := InvokeTimeProofs.queue_timeout_exact_statement.
+Theorem C10_queue_timeout_exact_refuted : ~ InvokeTimeProofs.queue_timeout_exact_statement.
+Proof. exact InvokeTimeProofs.queue_timeout_exact_refuted. Qed.
+(* the code's [sub] and the real waiting time differ by less than a millisecond *)
+Theorem C10_sub_ms_bounds : forall st, t_arr st <= t_sel st ->
+  sub_ms st * ns_per_ms < waited st + ns_per_ms /\ waited st < (sub_ms st + 1) * ns_per_ms.
+Proof. exact InvokeTimeProofs.sub_ms_bounds. Qed.
+(* the timestamps stand for a schedule of the handle-timeout race, which writes what the timed model says:
+   who answers - Invoke or the deadline - is decided by comparing t_sel + d_run, t_hdl + HandleTimeout and the handler's delays *)
+Theorem C10_timed_is_schedule : forall dispatch cfg r st, 0 < c_ht cfg ->
+  exists s, hrun_labels r (inv_reply dispatch r (sub_ms st)) hinit (timed_labels cfg st) = Some s /\
+            s_late s = late cfg st /\
+            s_written s = Some (map snd (fst (timed_step dispatch cfg r st))).
+Proof. exact InvokeTimeProofs.timed_is_schedule. Qed.
+Theorem C10_timed_no_handle_timeout : forall dispatch cfg r st, c_ht cfg = 0 ->
+  timed_step dispatch cfg r st =
+  (if oneway r then [] else [(fst (fst (fst (invoke dispatch r (sub_ms st)))), inv_reply dispatch r (sub_ms st))],
+   snd (fst (invoke dispatch r (sub_ms st)))).
+Proof. exact InvokeTimeProofs.timed_no_handle_timeout. Qed.
+(* the handle deadline counts from the handler's start: queueing, however long, does not eat into it *)
+Theorem C10_queueing_does_not_eat_handle_timeout : forall dispatch cfg r st, 0 < c_ht cfg ->
+  t_sel st + d_run st < t_hdl st + c_ht cfg * ns_per_ms -> oneway r = false ->
+  fst (timed_step dispatch cfg r st) =
+    [(fst (fst (fst (invoke dispatch r (sub_ms st)))), inv_reply dispatch r (sub_ms st))] /\
+  snd (timed_step dispatch cfg r st) = snd (fst (invoke dispatch r (sub_ms st))).
+Proof. exact InvokeTimeProofs.timed_queueing_does_not_eat_handle_timeout. Qed.
+
+(* ================= one Current per request: the handlers of a connection's requests interleave ================= *)
+(* the projection of any interleaved run onto request i is a run of request i's own transition system *)
+Theorem C10_connection_projection : forall rs ls cs cs', crun rs cs ls = Some cs' ->
+  forall i r p s, nth_error rs i = Some (r, p) -> nth_error cs i = Some s ->
+  exists s', nth_error cs' i = Some s' /\ hrun_labels r p s (proj i ls) = Some s'.
+Proof. exact InvokeTimeProofs.crun_projection. Qed.
+Theorem C10_connection_interleaved : forall rs ls cs, crun rs (cinit rs) ls = Some cs ->
+  forall i r p s, nth_error rs i = Some (r, p) -> nth_error cs i = Some s ->
+  (p_id p = q_id r /\ p_ver p = q_ver r /\ p_ptype p = q_ptype r) ->
+  forall w, s_written s = Some w ->
+    if oneway r then w = []
+    else exists x, w = [x] /\ p_id x = q_id r /\ p_ver x = q_ver r /\ p_ptype x = q_ptype r.
+Proof. exact InvokeTimeProofs.connection_interleaved. Qed.
+(* with ONE Current per connection the same statement is false (witness: a one-way request answered because another
+   request's Invoke returned in between) - the invariant "one Current per request" is what the theorem above rests on *)
+Definition C10_shared_current_statement : Prop := InvokeTimeProofs.shared_current_statement.
+Theorem C10_shared_current_refuted : ~ InvokeTimeProofs.shared_current_statement.
+Proof. exact InvokeTimeProofs.shared_current_refuted. Qed.
+
+(* ================= regenerated from the tree: Protocol.Invoke's answers on a fixed table of requests =================
+   Gen/C10Probe.v is rewritten on every run from calls of the real tars.Protocol.Invoke (scripted servant, every function
+   shape x version x outcome, ping and near-misses, the queue-timeout decision on both sides of its boundary, one-way
+   requests, refused versions); the model's invoke agrees with every row. *)
+Theorem C10_invoke_probe : probe_failing = [].
+Proof. exact InvokeProbe.invoke_probe_agrees. Qed.
+Theorem C10_invoke_probe_nonempty : (100 <=? length c10_probe)%nat = true.
+Proof. exact InvokeProbe.invoke_probe_nonempty. Qed.
+
 Print Assumptions C10_protocol_constants.
 Print Assumptions C10_count.
 Print Assumptions C10_identity.
@@ -222,3 +309,18 @@ Print Assumptions C10_connection_schedules.
 Print Assumptions C10_pipelining.
 Print Assumptions C10_session_identity.
 Print Assumptions C10_tcp_segmentation.
+Print Assumptions C10_timed_count.
+Print Assumptions C10_timed_identity.
+Print Assumptions C10_queue_timeout_only_if_waited.
+Print Assumptions C10_queue_timeout_window.
+Print Assumptions C10_waited_then_not_executed.
+Print Assumptions C10_queue_timeout_exact_refuted.
+Print Assumptions C10_sub_ms_bounds.
+Print Assumptions C10_timed_is_schedule.
+Print Assumptions C10_timed_no_handle_timeout.
+Print Assumptions C10_queueing_does_not_eat_handle_timeout.
+Print Assumptions C10_connection_projection.
+Print Assumptions C10_connection_interleaved.
+Print Assumptions C10_shared_current_refuted.
+Print Assumptions C10_invoke_probe.
+Print Assumptions C10_invoke_probe_nonempty.
